@@ -5,3 +5,19 @@ def fill(check, NA):
           "a bounded-exhaustive statement, not a proof over the reals",
           "trusted: CasADi evaluation, numpy; bounds: word depth 3 (quick) / 4 (thorough), alphabets in mc/alpha.py",
           "bounded exhaustive exploration: explicit-state BFS over API operation words + full alphabet products vs matrix reference model", "DESIGN.md section 4 C01")
+
+    check("C02", "model_checking",
+          "every (algebra, group) configuration: exhaustive product over the algebra alphabet including both adjacent doubles of every branch boundary of the compiled exp "
+          "(found by signature-flip bisection on the real instruction list) against expm of the wedge matrix; BFS over one-parameter words X*exp(s x) against expm((sum s) X)",
+          "trusted: scipy expm, CasADi; the wedge map is the library's own algebra to_Matrix (its bracket is C04); bounds in evidence",
+          "bounded exhaustive exploration: alphabet product + branch-boundary harvesting on the compiled program + BFS over one-parameter words vs expm reference", "DESIGN.md section 4 C02")
+    check("C03", "model_checking",
+          "BFS over words {X*g, g*X, X^-1}, g = exp(x_i) and non-canonical representatives, from the identity; every reached state (negative-scalar quaternions, shadow MRPs, "
+          "DCMs with round-off) plus all designed representatives judged: exp(log X)=X, log(exp x)=x, principal value equal to the reference logm of the textbook rotation matrix",
+          "trusted: numpy reference logm; rotations within 0.01 rad of pi excluded by the reference; depth 2/3",
+          "bounded exhaustive exploration: explicit-state BFS over API words, every state judged against a reference principal logarithm", "DESIGN.md section 4 C03")
+    check("C04", "model_checking",
+          "exhaustive products of group and algebra alphabets for conjugation, bracket = commutator, antisymmetry, Jacobi, Ad_exp = expm(ad), shapes; BFS over group words comparing Ad(state) "
+          "with the product of the generators' Ad matrices; NotImplementedError operations recorded as out of scope, any other exception is a violation",
+          "trusted: numpy inverse, scipy expm; vee by least squares against the library's own wedge basis",
+          "bounded exhaustive exploration: alphabet products + explicit-state BFS over operation words vs matrix conjugation reference", "DESIGN.md section 4 C04")
